@@ -9,12 +9,14 @@ import shutil
 from .common import BUILD_ROOT, GUARD, HARNESS, REPO, CheckError, log, run
 
 CFLAGS = "-O1 -g -fsanitize=address -fno-omit-frame-pointer -fno-optimize-sibling-calls -D%s -Wno-error" % GUARD
+# second variant: ThreadSanitizer build of the library, used only by the data-race scan of the controlled-scheduler checks
+CFLAGS_TSAN = "-O1 -g -fsanitize=thread -fno-omit-frame-pointer -D%s -Wno-error" % GUARD
 KEEP = 8            # plus: never prune a directory used within the last 90 minutes (concurrent checks / worktrees)
 
 
-def tree_hash():
+def tree_hash(variant="asan"):
     h = hashlib.sha256()
-    h.update(CFLAGS.encode())
+    h.update((CFLAGS if variant == "asan" else CFLAGS_TSAN).encode())
     roots = ["source", "include", "cmake", "CMakeLists.txt"]
     for r in roots:
         p = os.path.join(REPO, r)
@@ -51,10 +53,10 @@ def _prune(keep_name):
         shutil.rmtree(os.path.join(BUILD_ROOT, e), ignore_errors=True)
 
 
-def ensure_lib():
+def ensure_lib(variant="asan"):
     """Returns the build directory (containing libaws-c-common.a and generated/include)."""
     os.makedirs(BUILD_ROOT, exist_ok=True)
-    th = tree_hash()
+    th = tree_hash(variant)
     bdir = os.path.join(BUILD_ROOT, th)
     lock = open(os.path.join(BUILD_ROOT, ".lock"), "w")
     fcntl.flock(lock, fcntl.LOCK_EX)
@@ -68,7 +70,8 @@ def ensure_lib():
         log("[build] library for tree %s" % th)
         cfg = [
             "cmake", "-G", "Ninja", "-S", REPO, "-B", bdir, "-DCMAKE_C_COMPILER=clang", "-DCMAKE_BUILD_TYPE=None",
-            "-DBUILD_TESTING=OFF", "-DAWS_WARNINGS_ARE_ERRORS=OFF", "-DCMAKE_C_FLAGS=" + CFLAGS,
+            "-DBUILD_TESTING=OFF", "-DAWS_WARNINGS_ARE_ERRORS=OFF",
+            "-DCMAKE_C_FLAGS=" + (CFLAGS if variant == "asan" else CFLAGS_TSAN),
         ]
         rc, out, err, to = run(cfg, timeout=600)
         if rc != 0:
@@ -92,9 +95,9 @@ WRAP_SYMS = [
 ]
 
 
-def build_harness(name, srcs, cflags=None, ldflags=None, wrap=False, includes=None):
+def build_harness(name, srcs, cflags=None, ldflags=None, wrap=False, includes=None, variant="asan"):
     """Compile harness/<srcs> and link against the library of the current tree. Returns exe path."""
-    bdir = ensure_lib()
+    bdir = ensure_lib(variant)
     hdir = os.path.join(bdir, "harness")
     os.makedirs(hdir, exist_ok=True)
     srcs = [s if os.path.isabs(s) else os.path.join(HARNESS, s) for s in srcs]
@@ -107,7 +110,7 @@ def build_harness(name, srcs, cflags=None, ldflags=None, wrap=False, includes=No
     for s in sorted(set(deps)):
         h.update(s.encode())
         h.update(open(s, "rb").read())
-    h.update(repr((cflags, ldflags, wrap, includes)).encode())
+    h.update(repr((cflags, ldflags, wrap, includes, variant, "recipe-v2")).encode())
     key = h.hexdigest()[:16]
     exe = os.path.join(hdir, name)
     stamp = exe + ".stamp"
@@ -116,12 +119,29 @@ def build_harness(name, srcs, cflags=None, ldflags=None, wrap=False, includes=No
     try:
         if os.path.exists(exe) and os.path.exists(stamp) and open(stamp).read() == key:
             return exe
-        cmd = ["clang"] + CFLAGS.split() + ["-std=gnu11", "-D_GNU_SOURCE",
+        if variant == "asan":
+            base = CFLAGS.split()
+        else:
+            # harness code itself is NOT instrumented (its own bookkeeping is shared on purpose); only linked with the runtime
+            base = ["-O1", "-g", "-fno-omit-frame-pointer", "-fno-builtin", "-D" + GUARD, "-DVS_TSAN"]
+        cmd = ["clang"] + base + ["-std=gnu11", "-D_GNU_SOURCE",
                "-I", os.path.join(REPO, "include"), "-I", os.path.join(bdir, "generated", "include"),
                "-I", os.path.join(HARNESS, "core"), "-I", HARNESS]
         for i in includes or []:
             cmd += ["-I", i]
-        cmd += (cflags or []) + srcs + ["-o", exe, os.path.join(bdir, "libaws-c-common.a")]
+        if variant != "asan":
+            # compile the harness WITHOUT the sanitizer (a single compile-and-link command would instrument it too),
+            # then link the uninstrumented objects with the instrumented library and the runtime
+            objs = []
+            for i, src in enumerate(srcs):
+                obj = os.path.join(hdir, "%s.%d.o" % (name, i))
+                rc, out, err, to = run(cmd + (cflags or []) + ["-c", src, "-o", obj], timeout=600)
+                if rc != 0:
+                    raise CheckError("BUILD-FAILED (harness %s)\n%s" % (name, (out + err).decode(errors="replace")[-4000:]))
+                objs.append(obj)
+            cmd = ["clang", "-g", "-fsanitize=thread"] + objs + ["-o", exe, os.path.join(bdir, "libaws-c-common.a")]
+        else:
+            cmd += (cflags or []) + srcs + ["-o", exe, os.path.join(bdir, "libaws-c-common.a")]
         if wrap:
             cmd.append("-Wl," + ",".join("--wrap=" + s for s in WRAP_SYMS))
         cmd += (ldflags or []) + ["-lpthread", "-ldl", "-lm"]
